@@ -22,7 +22,8 @@ from . import core
 from .core import TranslatorError
 
 OUTPUT = "WsCodecGen.v"
-ITEMS = ["header length switch (bounds 126 / 65536, markers 126 / 127)", "FIN bit / MASK bit", "struct layouts PACK_LEN1/2/3",
+ITEMS = ["queue pause test (feed_data)", "queue resume test after the size update (_read_from_buffer)", "queue limit factor",
+         "header length switch (bounds 126 / 65536, markers 126 / 127)", "FIN bit / MASK bit", "struct layouts PACK_LEN1/2/3",
          "PACK_RANDBITS / PACK_CLOSE_CODE layouts", "mask branch shape (every masked frame is xor-ed)",
          "send_frame closing test", "send_frame plain-path test", "send_frame sync-path test", "WS_CONTROL_FRAME_OPCODE",
          "WEBSOCKET_MAX_SYNC_CHUNK_SIZE", "RSV1 of compressed frames", "flush mode choice", "removesuffix(WS_DEFLATE_TRAILING)",
@@ -326,8 +327,64 @@ def generate() -> str:
     return "\n".join(out) + "\n" + _tail()
 
 
-def _tail() -> str:
+READER = "aiohttp/_websocket/reader_py.py"
+
+
+def _queue_flow() -> list[str]:
+    """WebSocketDataQueue read flow control: `_limit = limit * k`; feed_data: size added, then
+    `if self._size > self._limit and not paused: pause_reading()`; _read_from_buffer: message popped and size subtracted,
+    THEN `if self._size < self._limit and paused: resume_reading()`."""
     out = []
+    init = core.find_function(READER, "__init__", cls="WebSocketDataQueue")
+    lim = [n for n in ast.walk(init) if isinstance(n, ast.Assign) and ast.unparse(n.targets[0]) == "self._limit"]
+    if len(lim) != 1 or not (isinstance(lim[0].value, ast.BinOp) and isinstance(lim[0].value.op, ast.Mult)
+                             and _same(lim[0].value.left, "limit")):
+        raise TranslatorError("WebSocketDataQueue.__init__: `self._limit = limit * <k>` not found")
+    out.append(f"Definition QUEUE_LIMIT_FACTOR : N := {_int(lim[0].value.right)}.")
+
+    def flow_if(fn, call):
+        ifs = [n for n in ast.walk(fn) if isinstance(n, ast.If) and len(n.body) == 1
+               and _same(n.body[0], f"self._protocol.{call}()", "exec")]
+        if len(ifs) != 1:
+            raise TranslatorError(f"{fn.name}: expected exactly one `if ...: self._protocol.{call}()`")
+        return ifs[0]
+
+    def size_cmp(test, paused_positive):
+        ok = (isinstance(test, ast.BoolOp) and isinstance(test.op, ast.And) and len(test.values) == 2
+              and isinstance(test.values[0], ast.Compare) and _same(test.values[0].left, "self._size")
+              and _same(test.values[0].comparators[0], "self._limit"))
+        flag = test.values[1] if ok else None
+        if ok and paused_positive:
+            ok = _same(flag, "self._protocol._reading_paused")
+        elif ok:
+            ok = _same(flag, "not self._protocol._reading_paused")
+        if not ok:
+            raise TranslatorError("queue flow-control test has an unexpected shape: " + ast.unparse(test))
+        return core.comparison(test.values[0], {"_size": "size", "_limit": "limit"})
+    fd = core.find_function(READER, "feed_data", cls="WebSocketDataQueue")
+    body = _strip_doc(fd.body)
+    pi = flow_if(fd, "pause_reading")
+    add = [k for k, st in enumerate(body) if isinstance(st, ast.AugAssign) and isinstance(st.op, ast.Add) and ast.unparse(st.target) == "self._size"]
+    if len(add) != 1 or pi not in body or body.index(pi) < add[0]:
+        raise TranslatorError("feed_data: the pause test must follow `self._size += size`")
+    out.append("(* feed_data: after `self._size += size`: pause when this holds and reading is not paused *)")
+    out.append(f"Definition queue_pause_test (size limit : N) : bool := {size_cmp(pi.test, False)}.")
+    rb = core.find_function(READER, "_read_from_buffer", cls="WebSocketDataQueue")
+    first = _strip_doc(rb.body)[0]
+    if not (isinstance(first, ast.If) and _same(first.test, "self._buffer")):
+        raise TranslatorError("_read_from_buffer: first statement is not `if self._buffer:`")
+    ri = flow_if(rb, "resume_reading")
+    sub = [k for k, st in enumerate(first.body) if isinstance(st, ast.AugAssign) and isinstance(st.op, ast.Sub) and ast.unparse(st.target) == "self._size"]
+    pop = [k for k, st in enumerate(first.body) if isinstance(st, ast.Assign) and _same(st.value, "self._get_buffer()")]
+    if len(sub) != 1 or len(pop) != 1 or ri not in first.body or not (pop[0] < sub[0] < first.body.index(ri)):
+        raise TranslatorError("_read_from_buffer: the resume test must come after the message is popped and `self._size -= size`")
+    out.append("(* _read_from_buffer: after the pop and `self._size -= size`: resume when this holds and reading is paused *)")
+    out.append(f"Definition queue_resume_test (size limit : N) : bool := {size_cmp(ri.test, True)}.")
+    return out
+
+
+def _tail() -> str:
+    out = _queue_flow()
     v = core.find_assign(MODELS, "WS_DEFLATE_TRAILING")
     if not (isinstance(v, ast.Call) and isinstance(v.func, ast.Name) and v.func.id == "bytes" and len(v.args) == 1):
         raise TranslatorError("WS_DEFLATE_TRAILING is not bytes([...])")
